@@ -200,12 +200,22 @@ def count_threads(path):
     return mx + 1
 
 
-def known_findings():
-    p = os.path.join(ROOT, "known_findings.json")
-    if not os.path.exists(p):
-        return {"findings": [], "fixed": []}
-    with open(p) as f:
-        return json.load(f)
+def known_findings(prop=None):
+    """Known findings are committed under /verif/known_findings.d/<ID>.json (never written at run
+    time): {"findings":[{"property","key","what",...}], "fixed":[{"property","commit","what"}]}."""
+    d = os.path.join(ROOT, "known_findings.d")
+    res = {"findings": [], "fixed": []}
+    if os.path.isdir(d):
+        for fn in sorted(os.listdir(d)):
+            if fn.endswith(".json"):
+                with open(os.path.join(d, fn)) as f:
+                    j = json.load(f)
+                res["findings"] += j.get("findings", [])
+                res["fixed"] += j.get("fixed", [])
+    if prop:
+        res["findings"] = [x for x in res["findings"] if x.get("property") == prop]
+        res["fixed"] = [x for x in res["fixed"] if x.get("property") == prop]
+    return res
 
 
 def write_evidence(prop, tier, seed, level, coverage, wall_s, violations=0, assumptions=None):
